@@ -113,7 +113,7 @@ struct Cx<'tcx> {
     types: Vec<String>,
     type_ix: HashMap<Ty<'tcx>, usize>,
     // monomorphic instances of local const-generic functions met at call sites (work list)
-    instances: Vec<ty::Instance<'tcx>>,
+    instances: Vec<(ty::Instance<'tcx>, TypingEnv<'tcx>)>,
     inst_seen: std::collections::HashSet<ty::Instance<'tcx>>,
 }
 
@@ -221,25 +221,28 @@ impl<'tcx> Cx<'tcx> {
         if !matches!(self.tcx.def_kind(did), DefKind::Fn | DefKind::AssocFn) {
             return None;
         }
-        if inst.args.has_non_region_param() {
-            return None;
-        }
-        let mut consts = Vec::new();
-        let mut has_ty = false;
+        // every const argument must be a concrete value; type arguments may still mention the
+        // caller's own type parameters (the instance then lives in the caller's generic context)
+        let mut parts = Vec::new();
+        let mut n_const = 0;
         for a in inst.args.iter() {
             if let Some(c) = a.as_const() {
                 match c.try_to_target_usize(self.tcx) {
-                    Some(v) => consts.push(v.to_string()),
-                    None => consts.push(with_no_trimmed_paths!(c.to_string())),
+                    Some(v) => {
+                        parts.push(v.to_string());
+                        n_const += 1;
+                    }
+                    None => return None,
                 }
-            } else if a.as_type().is_some() {
-                has_ty = true;
+            } else if let Some(t) = a.as_type() {
+                parts.push(with_no_trimmed_paths!(t.to_string()));
             }
         }
-        if consts.is_empty() || has_ty {
+        if n_const == 0 {
             return None;
         }
-        Some(format!("{}::<{}>", self.path(did), consts.join(", ")))
+        let _ = inst.args.has_non_region_param();
+        Some(format!("{}::<{}>", self.path(did), parts.join(", ")))
     }
 
     fn gargs(&mut self, args: ty::GenericArgsRef<'tcx>) -> String {
@@ -633,7 +636,7 @@ impl<'tcx> Cx<'tcx> {
                             let rd = inst.def_id();
                             let iname = self.instance_name(inst);
                             if iname.is_some() && self.inst_seen.insert(inst) {
-                                self.instances.push(inst);
+                                self.instances.push((inst, env));
                             }
                             if iname.is_some() {
                                 o = o.s("resolved_generic", self.path(rd));
@@ -810,7 +813,7 @@ impl<'tcx> Cx<'tcx> {
 
 impl<'tcx> Cx<'tcx> {
     /// the body of a const-generic function with its generic arguments substituted
-    fn instance_entry(&mut self, inst: ty::Instance<'tcx>) -> Vec<String> {
+    fn instance_entry(&mut self, inst: ty::Instance<'tcx>, call_env: TypingEnv<'tcx>) -> Vec<String> {
         let tcx = self.tcx;
         let did = inst.def_id();
         let ld = did.expect_local();
@@ -818,7 +821,8 @@ impl<'tcx> Cx<'tcx> {
             Some(n) => n,
             None => return Vec::new(),
         };
-        let env = TypingEnv::fully_monomorphized();
+        use rustc_middle::ty::TypeVisitableExt;
+        let env = if inst.args.has_non_region_param() { call_env } else { TypingEnv::fully_monomorphized() };
         let kind = tcx.def_kind(did);
         let body = tcx.optimized_mir(did);
         let mono: mir::Body<'tcx> = inst.instantiate_mir_and_normalize_erasing_regions(
@@ -955,9 +959,9 @@ impl Callbacks for Extract {
         // call further instances)
         let mut done = 0;
         while done < cx.instances.len() && done < 256 {
-            let inst = cx.instances[done];
+            let (inst, ienv) = cx.instances[done];
             done += 1;
-            bodies.extend(cx.instance_entry(inst));
+            bodies.extend(cx.instance_entry(inst, ienv));
         }
 
         // ---- ADTs and impls
